@@ -77,6 +77,9 @@ def parse_class(items, cli_start=False):
 
 
 def retry_class(pairs):
+    # the recorded text of an unnamed value `word=…` is indistinguishable from NAME=… (F14c; same shape as F14b)
+    for n, v in pairs:
+        if n == "" and eq_before_space(v): return "unnamed-value-with-eq-before-space"
     for n, v in pairs:
         if any(c in RE_SPACE for c in v): return "value-with-white-space"
     for n, v in pairs:
@@ -259,7 +262,7 @@ def run(chk, replay):
         # ---- static stream
         corpus = [[("quoted", "a b")], [("quoted", 'x"')], [("quoted", '"x"')], [("quoted", "a=b")], [("namedQ", "A", "a=b")], [("quoted", "")],
                   [("namedQ", "N", "")], [("bare", "x"), ("quoted", "y z"), ("named", "K", "v"), ("namedQ", "K2", "v w")],
-                  [("quoted", 'say "hi" now')], [("named", "K", "b=c")], [("quoted", "x y=z")], [("quoted", "a\\b"), ("quoted", "c")]]
+                  [("quoted", 'say "hi" now')], [("named", "K", "b=c")], [("quoted", "x y=z")], [("quoted", "a\\b"), ("quoted", "c")], [("quoted", "|=")], [("quoted", "a b"), ("namedQ", "K", ""), ("quoted", 'q"q')]]
         n_items = 500 if quick else 5000
         for its in corpus + [gen_items(rng) for _ in range(n_items)]:
             p = render(its)
